@@ -1,7 +1,8 @@
 (* Uniform evaluation interface used by the correspondence harness: every model / spec function is
    reachable as  run fid args  over lists of integers, so the OCaml driver and the in-kernel
    cross-check are generic. *)
-From MS Require Import lib.Base gen.GenConst gen.GenCmd model.Frame model.Command model.Response model.Device spec.RefFrame spec.RefAC.
+From MS Require Import lib.Base gen.GenConst gen.GenCmd model.Frame model.Command model.Response model.Device model.Lan spec.RefFrame spec.RefAC spec.RefLan
+  crypto.MD5 crypto.SHA256 crypto.AES crypto.Modes.
 From RecordUpdate Require Import RecordSet.
 Import RecordSetNotations.
 Open Scope Z_scope.
@@ -206,5 +207,39 @@ Definition run_refac2 (fid : Z) (a : list (list Z)) : option out :=
                                 [Z.of_N (p_indoor_raw r); Z.of_N (p_indoor_digit r); Z.of_N (p_outdoor_raw r);
                                  Z.of_N (p_outdoor_digit r); boolz (p_fahrenheit r)]]
                 | None => (1, []) end)
+  | _ => None
+  end.
+
+(* ---------------- LAN packet layer ---------------- *)
+Definition optkey (l : list Z) : option bytes := match l with [] => None | _ => Some (zb l) end.
+Definition of_opt {A} (o : option A) (f : A -> list (list Z)) : out :=
+  match o with Some a => (0, f a) | None => (1, []) end.
+Definition bigz (l : list Z) : N := from_le (zb l).      (* integers beyond 62 bits travel as LE byte lists *)
+
+Definition run_lan (fid : Z) (a : list (list Z)) : option out :=
+  match fid with
+  | 40 => Some (of_res (v2_encode (zb (arg a 0)) (bigz (arg a 1)) (zb (arg a 2))) (fun p => [bz p]))
+  | 41 => Some (of_res (v2_decode (zb (arg a 0))) (fun f => [bz f]))
+  | 42 => Some (of_res (v3_encode_request (optkey (arg a 0)) (argn a 1) (zb (arg a 2)) (zb (arg a 3))) (fun p => [bz p]))
+  | 43 => Some (of_res (v3_process_packet (optkey (arg a 0)) (zb (arg a 1))) (fun f => [bz f]))
+  | 44 => Some (of_res (get_local_key (zb (arg a 0)) (zb (arg a 1))) (fun k => [bz k]))
+  | 45 => let '(buf, q) := fold_left data_received (map zb (skipn 1 a)) (zb (arg a 0), []) in
+          Some (ok (bz buf :: map bz q))
+  | 46 => let g k := Z.to_N (nth k (arg a 0) 0) in
+          Some (ok [bz (timestamp (g 0%nat) (g 1%nat) (g 2%nat) (g 3%nat) (g 4%nat) (g 5%nat) (g 6%nat))])
+  | 47 => Some (ok [bz (md5 (zb (arg a 0)))])
+  | 48 => Some (ok [bz (sha256 (zb (arg a 0)))])
+  | 49 => let key := zb (arg a 1) in let d := zb (arg a 2) in
+          Some (of_res (match argz a 0 with 0 => ecb_enc key d | 1 => ecb_dec key d | 2 => encrypt_aes_cbc key d
+                        | 3 => decrypt_aes_cbc key d | 4 => Ok (pkcs7_pad d) | _ => pkcs7_unpad d end) (fun x => [bz x]))
+  | 50 => Some (of_res (v3_encode_handshake (argn a 0) (zb (arg a 1))) (fun p => [bz p]))
+  | 51 => Some (of_opt (ref_v2_parse (zb (arg a 0))) (fun '(id, f) => [bz (le_bytes 8 id); bz f]))
+  | 52 => Some (of_opt (ref_v2_build (zb (arg a 0)) (zb (arg a 1)) (bigz (arg a 2)) (zb (arg a 3)) (zb (arg a 4))) (fun p => [bz p]))
+  | 53 => Some (of_opt (ref_v3_parse_request (zb (arg a 0)) (zb (arg a 1))) (fun '(c, d) => [[Z.of_N c]; bz d]))
+  | 54 => Some (of_opt (ref_v3_build (argn a 0) (zb (arg a 1)) (argn a 2) (zb (arg a 3)) (zb (arg a 4))) (fun p => [bz p]))
+  | 55 => Some (of_opt (ref_handshake_reply (zb (arg a 0)) (zb (arg a 1))) (fun r => [bz r; bz (ref_session_key (zb (arg a 0)) (zb (arg a 1)))]))
+  | 56 => Some (ok [bz (ref_handshake_packet (argn a 0) (zb (arg a 1)))])
+  | 57 => Some (of_opt (ref_parse_handshake_request (zb (arg a 0))) (fun '(c, t) => [[Z.of_N c]; bz t]))
+  | 58 => Some (ok [bz (udpid (zb (arg a 0)))])
   | _ => None
   end.
